@@ -1,18 +1,19 @@
 """C20 - the ring buffer is a FIFO queue (DESIGN.md section 5, C20)."""
 import vcheck as V
 
+FILES = ["ring_test.go"]
 OBLIGATIONS = ["c20_refines", "c20_len", "c20_no_retention", "c20_new_ring", "c20_grow_regimes"]
 
 
 def run(ctx):
     ctx.prove("ring", "C20.v", OBLIGATIONS)
-    rep, _ = V.harness_report(ctx, "^TestVerifC20$", "C20.report.json")
+    rep, _ = V.harness_report(ctx, "^TestVerifC20$", "C20.report.json", files=FILES)
     summ = V.driver_compare(ctx, "ring", ["ring_model"], "ring_driver", "C20.log",
                             "ringbuffer.go vs coq/ring/Model.v (results and internal layout after every operation)")
     V.merge_report(ctx, rep, summ)
     if ctx.broken and not ctx.violations and ctx.quick():
         # search: the queue oracle over the deeper exhaustive sweep
-        rep2, _ = V.harness_report(ctx, "^TestVerifC20$", "C20.report.json", env={"VERIF_TIER": "thorough"})
+        rep2, _ = V.harness_report(ctx, "^TestVerifC20$", "C20.report.json", env={"VERIF_TIER": "thorough"}, files=FILES)
         V.merge_report(ctx, rep2)
     ctx.coverage["rule"] = ("every op sequence of depth %s over a 16-letter alphabet from 87 layouts (cap 1,2,3,4,8 x head x fill, "
                             "built directly in-package) + random sequences incl. growth past 1024; non-trivial = the "
